@@ -5,10 +5,10 @@ import os
 from typing import Any, Dict, List
 
 from common import Ctx
-from props import c01_e2e
+from props import c01_e2e, c01_world
 
 PROP = "C01"
-LEAN_MODULE = "TsProofs.Properties.C01"
+LEAN_MODULE = "TsProofs.Properties.C01World"   # imports TsProofs.Properties.C01
 THEOREMS = [
     "Ts.Snapshot.C01_dataplane_roundtrip",
     "Ts.Snapshot.C01_knob_independence",
@@ -16,6 +16,13 @@ THEOREMS = [
     "Ts.Snapshot.restoreLeafWith_ok",
     "Ts.Snapshot.assemble_chunks",
     "Ts.Snapshot.storedAll",
+    "Ts.Snapshot.restoreLeafG_ok",
+    "Ts.World.C01_world_roundtrip",
+    "Ts.World.C07_world_replicated_everywhere",
+    "Ts.World.C06_world_written_once",
+    "Ts.World.C06_world_kept_nodup",
+    "Ts.World.world_roundtrip",
+    "Ts.World.worldEntry_rep_indep",
     "Ts.Flatten.C15_inverse",
     "Ts.C16.C16_plan_roundtrip",
     "Ts.Serial.C17_roundtrip_strided",
@@ -29,7 +36,10 @@ RULE = ("(a) end-to-end: random nested application states (lists, dicts, Ordered
         "the argument handed to load_state_dict must equal the saved state (container types, key types and order, float bits, tensor "
         "dtype/shape/bytes). (b) model tie, 1 rank: the payload leaves in flatten order + knobs go to the Lean data-plane model; its "
         "manifest entries (kind, chunk offsets/sizes, byte ranges, slab grouping), every stored object's bytes and the restored leaves "
-        "are compared with the real manifest / storage. (c) bounded-exhaustive in thorough: every dtype x small shapes x every "
+        "are compared with the real manifest / storage. (b') whole-job tie, 2-3 ranks with replicated + private leaves: the Lean "
+        "job model gets every rank's leaves, the replicated paths and the partition the real partitioner chose and must reproduce "
+        "which rank stores which object with which bytes, every (rank, path) entry (writer of every unit, ranges, chunk tables) and "
+        "the restored leaves; real restore on every rank is the oracle. (c) bounded-exhaustive in thorough: every dtype x small shapes x every "
         "threshold. Non-trivial = at least one payload write; distinct by case hash.")
 TRUSTED = ["torch layout -> row-major bytes (contiguous(), numpy bridge), torch.save/torch.load as a lawful codec (C17's assumptions)",
            "distinct write units get distinct storage locations (C05, under its key-safety hypotheses: finding D13)",
@@ -251,6 +261,11 @@ def run(ctx: Ctx):
     for c in CORPUS:
         c01_e2e.one_case(ctx, c, "corpus")
     n_e2e, n_tie = ctx.n(260, 4000), ctx.n(160, 2500)
+    for i in range(ctx.n(120, 2000)):
+        if ctx.time_left() < 60:
+            ctx.notes.append(f"world tie stream stopped early at {i}")
+            break
+        c01_world.world_tie_case(ctx, c01_world.gen_world_case(ctx.rng), "world_tie")
     for i in range(n_tie):
         if ctx.time_left() < 40:
             ctx.notes.append(f"model tie stream stopped early at {i}")
@@ -279,7 +294,9 @@ def replay(ctx: Ctx, rec):
     inp = rec["input"]
     if "case" in inp:
         inp = inp["case"]
-    if "state" in inp:
+    if "glob" in inp:
+        c01_world.world_tie_case(ctx, inp, "replay")
+    elif "state" in inp:
         model_tie_case(ctx, inp, "replay")
     else:
         c01_e2e.one_case(ctx, inp, "replay")
